@@ -115,9 +115,23 @@ func memNodes(n, mtu int, layer func(i int, s dyn) (dyn, dynAsk)) ([]node, error
 			base = closeErrSwarm{base}
 		}
 		t, a := layer(i, base)
-		ret = append(ret, node{tell: t, ask: a, close: func() { t.Close() }})
+		// a multiplexer has no Close of its own: whoever made the base swarm closes it after the channels
+		ret = append(ret, node{tell: t, ask: a, close: func() { t.Close(); base.Close() }})
 	}
 	return ret, nil
+}
+
+// closeAlso: Close of the top swarm, then of a layer underneath that the top does not close itself (a multiplexer
+// channel does not close the swarm the multiplexer sits on)
+type closeAlso struct {
+	dyn
+	under interface{ Close() error }
+}
+
+func (c closeAlso) Close() error {
+	err := c.dyn.Close()
+	c.under.Close()
+	return err
 }
 
 var templates = []template{
@@ -146,7 +160,8 @@ var templates = []template{
 	}},
 	{"u16mux(frag(mem64))", true, func(n, seed int) ([]node, error) {
 		return memNodes(n, 64, func(i int, s dyn) (dyn, dynAsk) {
-			return p2pmux.NewUint16Mux[p2p.Addr](fragswarm.New[p2p.Addr](s, 5000)).Open(513), nil
+			f := fragswarm.New[p2p.Addr](s, 5000)
+			return closeAlso{p2pmux.NewUint16Mux[p2p.Addr](f).Open(513), f}, nil
 		})
 	}},
 	{"p2pke(mem)", true, func(n, seed int) ([]node, error) {
@@ -352,6 +367,10 @@ func swarmOracle(r *rand.Rand, n int, tier string, infile string) (cases int, fa
 		dupHoldCase("frag", bad)
 		dupHoldCase("mbapp", bad)
 		cases += 2
+		for _, kind := range []string{"mem", "wl", "map", "strmux"} {
+			holdReuseCase(kind, bad)
+			cases++
+		}
 		udpCtxCase(bad)
 		cases++
 		transformCase(bad)
@@ -516,6 +535,74 @@ func dupHoldCase(kind string, bad func(string, ...any)) {
 	}
 }
 
+// holdReuseCase: a layer that only passes messages through (whitelist, address mapping, a multiplexer, nothing at all)
+// over an in-memory transport with a two-slot receive queue. While the callback for the first message runs, as many
+// further messages as the queue has slots are told to the same node: the memory the transport lent for the first
+// message must stay the callback's until it returns (C14), so what the callback reads at its end is what it was
+// given, and every callback is given a payload that was told (C01).
+func holdReuseCase(kind string, bad func(string, ...any)) {
+	r := memswarm.NewRealm(memswarm.WithQueueLen(2), memswarm.WithMTU(1000))
+	wrap := func() dyn {
+		s := r.NewSwarm()
+		switch kind {
+		case "wl":
+			sec := p2p.ComposeSecureSwarm[memswarm.Addr, struct{}](s, noSecure[memswarm.Addr]{})
+			return erase[memswarm.Addr](wlswarm.WrapSecure[memswarm.Addr, struct{}](sec, func(memswarm.Addr) bool { return true }))
+		case "map":
+			return erase[mappedAddr](mapswarm.New[mappedAddr, memswarm.Addr](s,
+				func(a mappedAddr) memswarm.Addr { return memswarm.Addr{N: a.K - 1000} },
+				func(b memswarm.Addr) mappedAddr { return mappedAddr{K: b.N + 1000} }, parseMappedAddr))
+		case "strmux":
+			return p2pmux.NewStringMux[p2p.Addr](erase[memswarm.Addr](s)).Open("c")
+		}
+		return erase[memswarm.Addr](s)
+	}
+	a, b := wrap(), wrap()
+	defer a.Close()
+	defer b.Close()
+	dst := b.LocalAddrs()[0]
+	msgs := [][]byte{[]byte("message-0000-first, held by its callback"), []byte("message-0001-second, told while the first is held"),
+		[]byte("message-0002-third, told while the first is held.."), []byte("message-0003")}
+	told := map[string]bool{}
+	for _, m := range msgs {
+		told[string(m)] = true
+	}
+	tell := func(m []byte) {
+		ctx, cf := context.WithTimeout(context.Background(), time.Second)
+		defer cf()
+		a.Tell(ctx, dst, p2p.IOVec{append([]byte{}, m...)})
+	}
+	tell(msgs[0])
+	got := 0
+	for k := 0; k < 3; k++ {
+		ctx, cf := context.WithTimeout(context.Background(), 300*time.Millisecond)
+		err := b.Receive(ctx, func(m p2p.Message[p2p.Addr]) {
+			got++
+			entry := append([]byte{}, m.Payload...)
+			if !told[string(entry)] {
+				bad("C01 hold(%s): a receiver was given %q, which was never told", kind, entry)
+			}
+			if k == 0 {
+				// the held message occupies one of the two slots until its callback returns: of these two messages the
+				// in-memory transport (unreliable when its queue is full) keeps one and drops the other
+				tell(msgs[1])
+				tell(msgs[2])
+				time.Sleep(5 * time.Millisecond)
+				if !bytes.Equal(entry, m.Payload) {
+					bad("C14 hold(%s): the payload a callback was given changed while the callback was running: %q -> %q", kind, entry, m.Payload)
+				}
+			}
+		})
+		cf()
+		if err != nil {
+			break
+		}
+	}
+	if got < 2 {
+		bad("C01 hold(%s): %d messages arrived, the two-slot queue had room for 2", kind, got)
+	}
+}
+
 // closeDuringCallbackCase: Close is called while one receiver's callback is still running. The OTHER receivers that
 // were blocked must return an error promptly all the same (C12 does not let them wait for somebody else's callback,
 // which may never return); when the callback returns, Close and that Receive finish.
@@ -619,13 +706,12 @@ func udpCtxCase(bad func(string, ...any)) {
 func swarmCase(r *rand.Rand, tpl template, seed int, bad func(string, ...any)) (cases int) {
 	nn := 2 + r.Intn(2)
 	memCloseErr = seed%2 == 1
+	gBefore := goroutineIDs()
 	nodes, err := tpl.build(nn, seed)
 	if err != nil {
 		return 1 // environment (bind) failure: inconclusive, not a violation
 	}
 	name := tpl.name
-	gBefore := runtime.NumGoroutine()
-	_ = gBefore
 	ctx, cancelAll := context.WithCancel(context.Background())
 	var mu sync.Mutex
 	var got []delivery
@@ -825,6 +911,17 @@ func swarmCase(r *rand.Rand, tpl template, seed int, bad func(string, ...any)) (
 		mu.Lock()
 		afterClose[i] = true
 		mu.Unlock()
+		// C11: the destination is gone (closed, over whatever connection the earlier asks left behind): an Ask to it
+		// ends with an error, not with an answer nobody produced
+		if i == 0 && nn > 1 && nodes[1].ask != nil {
+			actx, cf := context.WithTimeout(context.Background(), 700*time.Millisecond)
+			buf := make([]byte, 64)
+			n, err := nodes[1].ask.Ask(actx, buf, addrs[0], p2p.IOVec{[]byte{1, 2, 3, 4}})
+			cf()
+			if err == nil {
+				bad("C11 %s: Ask to a node that has been closed returned success (n=%d) although no handler ran", name, n)
+			}
+		}
 	}
 	fin := make(chan struct{})
 	go func() { recvWG.Wait(); close(fin) }()
@@ -870,7 +967,74 @@ func swarmCase(r *rand.Rand, tpl template, seed int, bad func(string, ...any)) (
 		}()
 	}
 	cancelAll()
+	// C12: closing releases the goroutines the swarm started (every node of the stack is closed now)
+	var left []string
+	for wait := 0; wait < 40; wait++ {
+		if left = repoGoroutinesSince(gBefore); len(left) == 0 {
+			break
+		}
+		time.Sleep(50 * time.Millisecond)
+	}
+	uniq := map[string]int{}
+	for _, g := range left {
+		uniq[g]++
+	}
+	for g, k := range uniq {
+		bad("C12 %s: %d goroutine(s) the swarm started still alive 2s after Close: %s", name, k, g)
+	}
 	return 1
+}
+
+// goroutineIDs: the ids of all goroutines alive now
+func goroutineIDs() map[string]bool {
+	ids := map[string]bool{}
+	for _, blk := range goroutineBlocks() {
+		ids[goroutineID(blk)] = true
+	}
+	return ids
+}
+
+func goroutineBlocks() []string {
+	buf := make([]byte, 1<<20)
+	for {
+		n := runtime.Stack(buf, true)
+		if n < len(buf) {
+			return strings.Split(strings.TrimSpace(string(buf[:n])), "\n\n")
+		}
+		buf = make([]byte, 2*len(buf))
+	}
+}
+
+func goroutineID(blk string) string {
+	f := strings.Fields(blk)
+	if len(f) >= 2 && f[0] == "goroutine" {
+		return f[1]
+	}
+	return ""
+}
+
+// repoGoroutinesSince: goroutines that did not exist at the snapshot and run (or were created by) code of the library,
+// as "top library frame <- created by ..."
+func repoGoroutinesSince(before map[string]bool) (out []string) {
+	const mod = "go.brendoncarroll.net/p2p"
+	for _, blk := range goroutineBlocks() {
+		if before[goroutineID(blk)] || !strings.Contains(blk, mod) {
+			continue
+		}
+		top, created := "", ""
+		for _, l := range strings.Split(blk, "\n") {
+			if strings.HasPrefix(l, "created by ") {
+				created = strings.TrimPrefix(strings.Fields(l[len("created by "):])[0], mod)
+			} else if strings.HasPrefix(l, mod) && top == "" {
+				top = strings.TrimPrefix(l[:strings.LastIndexByte(l, '(')], mod)
+			}
+		}
+		if !strings.Contains(created, "/") && !strings.Contains(top, "/") {
+			continue
+		}
+		out = append(out, top+" <- created by "+created)
+	}
+	return out
 }
 
 func askCase(r *rand.Rand, name string, nodes []node, addrs []p2p.Addr, ctx context.Context, bad func(string, ...any)) {
